@@ -535,11 +535,46 @@ func ruleBuilderWiring(c *Ctx, mx *PkgIndex, rule string, fields []string) {
 	}
 	kind := fn.Obj.Type().(*types.Signature).Params().At(1)
 	stream := fn.Obj.Type().(*types.Signature).Params().At(2)
-	// collect field ← expr for the Builder (composite literal keys and later assignments b.F = …)
+	// collect field ← expr for the Builder (composite literal keys and later assignments b.F = …), in cachedAggregator or in a
+	// declared helper it calls that returns the Builder (its kind / stream parameters stand for the arguments it is given)
 	src := map[string]ast.Expr{}
 	srcStmt := map[string]Site{}
+	kindAlias, streamAlias := map[types.Object]bool{kind: true}, map[types.Object]bool{stream: true}
+	helpers := map[*FuncInfo]bool{}
 	for _, f := range mx.All {
 		if mx.Outer(f) != fn {
+			continue
+		}
+		inspectNoLit(f.Body(), func(n ast.Node) bool {
+			call, ok := n.(*ast.CallExpr)
+			if !ok {
+				return true
+			}
+			d := mx.declByObj(callee(info, call))
+			if d == nil || d == fn || d.Obj == nil {
+				return true
+			}
+			res := d.Obj.Type().(*types.Signature).Results()
+			if res.Len() != 1 || !typeIs(res.At(0).Type(), aggPkg, "Builder") {
+				return true
+			}
+			helpers[d] = true
+			ps := d.Obj.Type().(*types.Signature).Params()
+			for i := 0; i < ps.Len() && i < len(call.Args); i++ {
+				if sameVar(info, call.Args[i], kind) {
+					kindAlias[ps.At(i)] = true
+				}
+				if sameVar(info, call.Args[i], stream) {
+					streamAlias[ps.At(i)] = true
+				}
+			}
+			return true
+		})
+	}
+	isKind := func(e ast.Expr) bool { o := objOf(info, e); return o != nil && kindAlias[o] }
+	isStream := func(e ast.Expr) bool { o := objOf(info, e); return o != nil && streamAlias[o] }
+	for _, f := range mx.All {
+		if mx.Outer(f) != fn && !helpers[mx.Outer(f)] {
 			continue
 		}
 		inspectNoLit(f.Body(), func(n ast.Node) bool {
@@ -569,6 +604,7 @@ func ruleBuilderWiring(c *Ctx, mx *PkgIndex, rule string, fields []string) {
 			return true
 		})
 	}
+	tupleGuarded := map[string]bool{}
 	for _, fld := range fields {
 		e := src[fld]
 		key := "sdk/metric|(*inserter).cachedAggregator|Builder." + fld + " source"
@@ -580,15 +616,25 @@ func ruleBuilderWiring(c *Ctx, mx *PkgIndex, rule string, fields []string) {
 		good := false
 		switch fld {
 		case "Temporality":
-			if call, ok := unparen(e).(*ast.CallExpr); ok && isCallTo(info, call, "("+sdkMetric+".Reader).temporality") && len(call.Args) == 1 && sameVar(info, call.Args[0], kind) {
+			if call, ok := unparen(e).(*ast.CallExpr); ok && isCallTo(info, call, "("+sdkMetric+".Reader).temporality") && len(call.Args) == 1 && isKind(call.Args[0]) {
 				recv, _ := methodCall(info, call)
 				good = strings.HasSuffix(exprStr(recv), ".pipeline.reader")
 			}
 		case "Filter":
-			if fv, b := fieldOf(info, e); fv != nil && fv.Name() == "AttributeFilter" && sameVar(info, b, stream) {
+			if fv, b := fieldOf(info, e); fv != nil && fv.Name() == "AttributeFilter" && isStream(b) {
 				good = true
 			}
 		case "AggregationLimit":
+			if id, isID := unparen(e).(*ast.Ident); isID {
+				// limit, ok := X.Lookup(); if ok { b.AggregationLimit = limit }: the value of the look-up (zero, the field's zero
+				// value, when ok is false)
+				if st, has := srcStmt[fld]; has {
+					if td, hasT := mx.FG(st.F).tupleDefs()[info.Uses[id]]; hasT && td.i == 0 {
+						e = td.call
+						tupleGuarded[fld] = true
+					}
+				}
+			}
 			if call, ok := unparen(e).(*ast.CallExpr); ok {
 				if cf := callee(info, call); cf != nil && cf.Name() == "Lookup" {
 					recv, _ := methodCall(info, call)
@@ -602,7 +648,23 @@ func ruleBuilderWiring(c *Ctx, mx *PkgIndex, rule string, fields []string) {
 				}
 			}
 		}
-		if st, ok := srcStmt[fld]; ok && good {
+		if st, ok := srcStmt[fld]; ok && good && helpers[mx.Outer(st.F)] {
+			// inside the helper: the assignment lies on every path to the helper's return, or is skipped only when the look-up's
+			// own ok result is false (the value is the zero value then)
+			g := mx.FG(st.F)
+			x := g.NodeOf(st.N)
+			seen, _ := g.ReachFromEntry(func(y *GNode) bool { return y == x }, func(ed *GEdge) bool {
+				if !tupleGuarded[fld] || ed.Cond == nil || ed.Pol > 0 {
+					return false
+				}
+				_, isB := objOf(info, ed.Cond).(*types.Var)
+				return isB // the false edge of the comma-ok: nothing to store
+			})
+			if x == nil || seen[g.Exit] {
+				c.Violation(rule, key, at(mx.M, e.Pos()), "Builder."+fld+" is set only on some paths of the helper that builds the Builder")
+				continue
+			}
+		} else if st, ok := srcStmt[fld]; ok && good {
 			// a separate assignment must be unconditional: it dominates the use of the builder (the aggregateFunc call)
 			g := mx.FG(st.F)
 			uses := g.Match(func(n ast.Node) bool {
